@@ -19,6 +19,9 @@ import (
 	"fmt"
 	"io"
 	"strings"
+	"time"
+
+	"mellium.im/xmlstream"
 
 	"mellium.im/xmpp/carbons"
 	"mellium.im/xmpp/delay"
@@ -269,12 +272,61 @@ func streamReplay(c *ctx, f []string) {
 		return
 	}
 	switch f[2] {
+	case "delayinsert", "delaystanza":
+		if doc, err := common.UnHex(f[4]); err == nil {
+			delayInsertDoc(c, doc, "replay")
+		}
 	case "piter":
 		pageIterReplay(c, f)
+	case "siter":
+		sessIterReplay(c, f)
 	case "0", "1", "2":
 		unwrapDoc(c, int(f[2][0]-'0'), f[3] == "1", doc, "replay")
 	default:
 		insertDoc(c, doc, "replay")
+	}
+}
+
+// delayInsertDoc: delay.Insert / delay.Stanza (xmlstream.InsertFunc at level 1) on a forest.
+func delayInsertDoc(c *ctx, doc []byte, class string) {
+	r := c.r
+	in, err := common.Tokenize(doc)
+	if err != nil {
+		return
+	}
+	d := delay.Delay{From: jid.MustParse("room@example.net"), Time: time.Date(2020, 1, 2, 3, 4, 5, 0, time.UTC), Reason: "r<&"}
+	insToks, err := common.ReadAllTokens(d.TokenReader())
+	if err != nil {
+		return
+	}
+	for _, tf := range []struct {
+		name, model, ns string
+		f               xmlstream.Transformer
+	}{{"delay.Insert", "delayinsert", "", delay.Insert(d)}, {"delay.Stanza", "delaystanza", "jabber:client", delay.Stanza(d, "jabber:client")},
+		{"delay.Stanza", "delaystanza", "", delay.Stanza(d, "")}} {
+		caseLine := fmt.Sprintf("udoc %s %s %s", tf.model, dashS(tf.ns), common.Hex(doc))
+		r.Mark("case udoc")
+		r.Line(caseLine, "-")
+		lines := []string{r.Prop + " " + caseLine}
+		var toks []xml.Token
+		u := guard(tf.name, func() ([]byte, []xml.Token, error) {
+			t, err := common.ReadAllTokens(tf.f(xml.NewDecoder(bytes.NewReader(doc))))
+			toks = t
+			return nil, t, err
+		})
+		r.Case(caseLine, true, class+"/"+tf.name)
+		switch {
+		case u.panicked != "":
+			r.Fail("no-panic", tf.name+"/"+panicClass(u.panicked), lines, fmt.Sprintf("%s on %q panicked: %s", tf.name, doc, u.panicked))
+			continue
+		case u.err != nil:
+			r.Fail("marshal-error", tf.name+"/"+errClass(u.err), lines, fmt.Sprintf("%s on the well-formed %q failed: %v", tf.name, doc, u.err))
+			continue
+		}
+		if bad := nesting(toks); bad != "" && nesting(in) == "" {
+			r.Fail("well-formed", tf.name+"/"+bad, lines, fmt.Sprintf("%s on %q hands out %s", tf.name, doc, printToks(toks)))
+		}
+		r.Line(fmt.Sprintf("ins2 %s %s %s %s", tf.model, dashS(tf.ns), common.EncToks(insToks), common.EncToks(in)), common.EncToks(toks))
 	}
 }
 
@@ -411,6 +463,10 @@ func streamCases(c *ctx) {
 		insertDoc(c, []byte(children), "enum")
 		insertDoc(c, []byte(`<iq xmlns="jabber:client">`+children+`</iq>`), "enum")
 		insertDoc(c, []byte(`<message xmlns="jabber:server">`+children+`</message>`), "enum")
+		if i%3 == 0 {
+			delayInsertDoc(c, []byte(children), "enum")
+			delayInsertDoc(c, []byte(`<presence xmlns="jabber:client">`+children+`</presence><iq xmlns="jabber:server"/>`), "enum")
+		}
 	}
 	// messages the stateful inserter (receipts.Request) treats differently: error type, a type
 	// attribute in another namespace first, a receipt element inside / before / in an earlier
